@@ -203,6 +203,9 @@ func (tr *Trans) call(fr *Frame, res ssa.Value, c *ssa.CallCommon, site ssa.Inst
 	}
 	switch fv.K {
 	case VFunc, VClosure:
+		if fv.K == VFunc && len(args) > 0 && args[0].ConstStr != nil && (fv.Fn.String() == "fmt.Errorf" || fv.Fn.String() == "errors.New") {
+			tr.rejectAt(fr, *args[0].ConstStr, pos)
+		}
 		tr.callFunc(fr, res, fv.Fn, fv.Binds, args, sig, pos)
 		return
 	case VIterSeq:
@@ -976,4 +979,77 @@ func (tr *Trans) appendBuiltin(fr *Frame, res ssa.Value, c *ssa.CallCommon, args
 		q, q, q, s, arr, q, ssel, q, arr, q))
 	tr.upd(comp, srt, r, arr)
 	tr.define(fr, res, fmt.Sprintf("(mk_slice %s (+ (s_len %s) %s))", r, s, elen))
+}
+
+// rejectAt: the function is about to build an error whose message starts with a prefix that the contract
+// associates with a condition (e.g. reject "minItems:" ...): the condition must hold here.
+func (tr *Trans) rejectAt(fr *Frame, format string, pos token.Pos) {
+	var ct *Contract
+	for f := tr.fn; f != nil && ct == nil; f = f.Parent() {
+		if c := tr.eng.contractFor(f); c != nil && len(c.Rejects) > 0 {
+			ct = c
+		}
+	}
+	if ct == nil {
+		return
+	}
+	for _, cl := range ct.Rejects {
+		if !strings.HasPrefix(format, cl.Name) {
+			continue
+		}
+		cl.Used = true
+		sc := tr.pointScope(fr, pos)
+		te, err := sc.elab(cl.E)
+		if err != nil {
+			tr.eng.fatal("%s:%d: reject %q: %v", ct.File, cl.Line, cl.Name, err)
+			continue
+		}
+		props := cl.Tags
+		if len(props) == 0 {
+			props = ct.Tags
+		}
+		tr.cur.assert(te.E, tr.ob("reject", strings.TrimSuffix(cl.Name, ":"), pos, cl.Src, props))
+	}
+}
+
+// pointScope: entry scope plus the locals visible at a source position in frame fr.
+func (tr *Trans) pointScope(fr *Frame, pos token.Pos) *Scope {
+	sc := tr.scope.child()
+	visible := func(f *Frame) bool {
+		for g := fr; g != nil; g = g.parent {
+			if g == f {
+				return true
+			}
+		}
+		return false
+	}
+	for name, refs := range tr.localVar {
+		var best *localRef
+		for _, r := range refs {
+			if !visible(r.frame) || r.pos > pos {
+				continue
+			}
+			if best == nil || r.pos > best.pos || (r.pos == best.pos && r.frame.depth > best.frame.depth) {
+				best = r
+			}
+		}
+		if best == nil {
+			continue
+		}
+		a := best.addr
+		t := a.valueType()
+		srt := tr.sortOf(t).Sort
+		switch a.K {
+		case RCell:
+			if len(a.Path) == 0 {
+				sc.vars[name] = TExpr{E: cur(a.Var), Sort: srt, GoT: t}
+			}
+		case RHeapCell:
+			comp, csrt := tr.eng.sorts.cellComp(a.T)
+			sc.vars[name] = TExpr{E: a.Ref, Sort: srt, GoT: t, Cell: &CellRef{Comp: comp, Sort: csrt, Ref: a.Ref}}
+		case RWhole:
+			sc.vars[name] = TExpr{E: a.Ref, Sort: "Int", GoT: types.NewPointer(a.StructT)}
+		}
+	}
+	return sc
 }
